@@ -23,7 +23,8 @@ EXTENDS Integers, Sequences, FiniteSets, TLC, FiniteSetsExt, SequencesExt
 CONSTANTS
     Blueprints,                 \* set of blueprint records (see MC_ModelBuild)
     AsFound_LabourDemandLate,   \* TRUE: FixedMarginBusiness creates DEM_<labour> only in _GenerateEquations
-    AsFound_LiteralSupGood      \* TRUE: FixedMarginBusiness' PROF names SUP_GOOD literally
+    AsFound_LiteralSupGood,     \* TRUE: FixedMarginBusiness' PROF names SUP_GOOD literally
+    AsFound_DividendsPerPayer   \* TRUE: recipient = first sector with DIV (a paying business included), credited once per payer
 
 P == 10007
 
@@ -400,6 +401,13 @@ FirstWithDIV(st, bp, decl, s) ==
         idx == { i \in 1..Len(cs) : HasVar(st, cs[i], "DIV") }
     IN IF idx = {} THEN 0 ELSE cs[Min(idx)]
 
+(* the dividend recipient of a FixedMarginBusiness: the first non-business sector of the country declaring DIV *)
+DividendRecipient(st, bp, decl, s) ==
+    IF AsFound_DividendsPerPayer THEN FirstWithDIV(st, bp, decl, s)
+    ELSE LET cs == SectorsOfCountry(bp, decl, CountryOf(bp, s))
+             idx == { i \in 1..Len(cs) : cs[i] # s /\ KindOf(bp, cs[i]) # "FixedMarginBusiness" /\ HasVar(st, cs[i], "DIV") }
+         IN IF idx = {} THEN 0 ELSE cs[Min(idx)]
+
 GenBusiness(st, bp, decl, s) ==
     LET d == Sec(bp, s)
         mk == { t \in Range(SectorsOfCountry(bp, decl, d.cc)) : CodeOf(bp, t) = d.good }
@@ -415,10 +423,12 @@ GenBusiness(st, bp, decl, s) ==
                               b == SetVar(a, s, lab, DSum(M1({WageShare(s), msup}, 1)))
                           IN SetVar(b, s, "PROF", DSum(M1({Margin(s), msup}, 1)))
                      ELSE SetVar(st, s, lab, DVar(msup))
-              t == FirstWithDIV(st1, bp, decl, s)
+              t == DividendRecipient(st1, bp, decl, s)
           IN IF t = 0 THEN st1
              ELSE LET st2 == AddCashFlow(st1, s, -1, {<< s, "DIV" >>}, "DIV", FALSE, DVar(<< s, "PROF" >>), << s, "DIV" >>)
-                  IN AddCashFlow(st2, t, 1, {<< t, "DIV" >>}, "DIV", TRUE, DVar(<< s, "PROF" >>), << t, "DIV" >>)
+                  IN IF AsFound_DividendsPerPayer \/ Replaceable(st2.df[<< t, "DIV" >>])
+                     THEN AddCashFlow(st2, t, 1, {<< t, "DIV" >>}, "DIV", TRUE, DVar(<< s, "PROF" >>), << t, "DIV" >>)
+                     ELSE AddTermToVar(st2, << t, "DIV" >>, {<< s, "PROF" >>}, 1)   \* a further payer: booked once, DIV = sum
 
 GenMultiOutput(st, bp, decl, s) ==
     LET d == Sec(bp, s)
